@@ -237,6 +237,14 @@ def parse_results(text):
     return res
 
 
+def _big_stack():
+    import resource
+    try:
+        resource.setrlimit(resource.RLIMIT_STACK, (resource.RLIM_INFINITY, resource.RLIM_INFINITY))
+    except (ValueError, OSError):
+        pass
+
+
 def run_chunks(exe, scns, tag, root_arg, nchunks=None, timeout=1200, env=None, wrapper=None):
     """run scenarios through exe in parallel chunks; returns {id: lines}"""
     rundir = os.path.join(BUILD, 'run', '%s-%d' % (tag, os.getpid()))
@@ -255,7 +263,8 @@ def run_chunks(exe, scns, tag, root_arg, nchunks=None, timeout=1200, env=None, w
         root = root_arg if root_arg else os.path.join(rundir, 'fs%d' % i)
         if not root_arg:
             os.makedirs(root, exist_ok=True)
-        p = subprocess.Popen((wrapper or []) + [exe, fn, root], stdout=outf, stderr=subprocess.DEVNULL, env=env)
+        p = subprocess.Popen((wrapper or []) + [exe, fn, root], stdout=outf, stderr=subprocess.DEVNULL, env=env,
+                             preexec_fn=_big_stack)
         procs.append((p, fn, outf))
     res = {}
     deadline = time.time() + timeout
